@@ -1,5 +1,6 @@
 import I18n.Model.PyBrace
 import I18n.Model.PerlBrace
+import I18n.Spec.StrFormat
 import I18n.Driver.Util
 /- Driver for the brace-format models:
    `pybrace parse <hex code points>`, `pybrace spec <hex>` (the `_format_spec_re` reading of a specification),
@@ -61,10 +62,49 @@ def showPerl : Except PerlBrace.PErr PerlBrace.Result → String
     let args := ",".intercalate ((r.arguments.mergeSort lexLe).map Driver.hexChars)
     s!"ok items=[{items}] args=[{args}]"
 
+open I18n.Spec.StrFormat in
+def showChunk (c : Chunk) : String :=
+  match c.field with
+  | none => s!"L:{Driver.hexChars c.literal}"
+  | some f => s!"L:{Driver.hexChars c.literal}|N:{Driver.hexChars f.name}|S:{Driver.hexChars f.spec}|C:{showOptChar f.conversion}"
+
+open I18n.Spec.StrFormat in
+def showMarkup : Except MErr (List Chunk) → String
+  | .error e => s!"err {e.name}"
+  | .ok cs => "ok " ++ ";".intercalate (cs.map showChunk)
+
+open I18n.Spec.StrFormat in
+def parseVal (t : String) : Val :=
+  match t.toList with
+  | 'i' :: r => .int (Driver.parseInt (String.ofList r))
+  | 'f' :: _ => .float
+  | _ => .str
+
+open I18n.Spec.StrFormat in
+/-- `P:v,v,…|K:<hexkey>=v;…` -/
+def parseArgs (t : String) : Args :=
+  match t.splitOn "|" with
+  | [p, k] =>
+    let pb := (p.drop 2).toString
+    let kb := (k.drop 2).toString
+    { pos := if pb.isEmpty then [] else (pb.splitOn ",").map parseVal,
+      kw := if kb.isEmpty then [] else (kb.splitOn ";").map fun kv =>
+        match kv.splitOn "=" with
+        | [key, v] => (Driver.unhexChars key, parseVal v)
+        | _ => ([], .str) }
+  | _ => { pos := [], kw := [] }
+
+open I18n.Spec.StrFormat in
+def showFormat : Except FErr Unit → String
+  | .ok () => "ok"
+  | .error e => s!"err {e.name}"
+
 def handle (op : String) (args : List String) : String :=
   match op, args with
   | "parse", [h] => showResult (PyBrace.parse (Driver.unhexChars h))
   | "parse-cfg", [m, d, h] => showResult (PyBrace.parseWith { ssizeMax := m.toNat!, digitLimit := d.toNat! } (Driver.unhexChars h))
+  | "cpy-parse", [h] => showMarkup (Spec.StrFormat.markup (Driver.unhexChars h))
+  | "cpy-format", [h, a] => showFormat (Spec.StrFormat.format (Driver.unhexChars h) (parseArgs a))
   | "spec", [h] => showSpec (PyBrace.scanSpec (Driver.unhexChars h))
   | _, _ => "bad-op"
 
